@@ -3,7 +3,7 @@ import inspect
 
 from vmon.probe import shard_rng, observe
 from vmon.refs import b58 as RB, bech32 as R32, ec as REC, keytext as KT
-from vmon.gen import nets as NETS
+from vmon.gen import nets as NETS, b58shape as SH
 
 PROPERTY = "C18"
 PRELOAD_NETWORK_ORDERS = [["btc", "xtn", "ltc", "bch", "grs", "doge", "dash", "btg"], ["btg", "grs", "bch", "doge", "ltc", "xtn", "btc"]]
@@ -16,7 +16,16 @@ RULE = ("one case = (network, text); every case is fed to every single-string en
         "WIF/BIP32 bodies with boundary keys}; prefix embedded off position; bech32/bech32m with the HRP and a foreign HRP "
         "x version x length x checksum constant; H:/P:/E: forms with hex of every length and non-hex; x/even, x/odd, "
         "x,y forms with and without curve points; numeric forms; empty/whitespace/colon; random unicode (no surrogates); "
-        "single-character mutations of valid texts. Non-trivial = non-empty text; distinct by (network, text).")
+        "single-character mutations of valid texts; constructed texts = valid Base58 addresses / WIFs whose payload is computed "
+        "(interval arithmetic on the reference codec, vmon/gen/b58shape.py) so that the text begins with '<hrp>1' of the network "
+        "(every letter-case spelling) or of any other registered network, with the lead of another network's key text, with "
+        "the symbol / SEC tag, or is spelled over hex digits only / one letter case only; valid texts of this network given "
+        "as plain str to related networks (shared prefix / HRP, other checksum family). Reuse histories: ONE "
+        "network.parseable_str_type(text) object handed to every entry point of a network in random order and back, and "
+        "carried between networks (other Base58 checksum family incl. the GRS family, shared prefixes, random) in both "
+        "directions; at least one text of every decoding path (Base58 address, WIF, private / public node, segwit, SEC, "
+        "shaped, bad checksum, refused payload, seeds, electrum, numbers, pairs). "
+        "Non-trivial = non-empty text; distinct by (network, text) resp. (network, partner, text).")
 ASSUMPTIONS = [
     "declared prefixes / HRP are read from the network object (network.parse._*_prefix); the text model in "
     "vmon/refs/keytext.py is self-tested on published WIF, BIP32 vector 1, BIP173/BIP350 and well-known addresses",
@@ -30,7 +39,14 @@ ASSUMPTIONS = [
     "lone surrogate code points are not generated (not Unicode scalar values)",
     "text produced by pycoin's own serialisers for an address / WIF / extended key / SEC must be returned by that kind's "
     "parser and the catch-alls listed for it (reading of 'returned only by that kind's parser and the catch-alls')",
-    "GRS, TGRS, GRSRT are skipped: groestlcoin_hash is not installed (their Base58 checksum cannot be computed)",
+    "GRS, TGRS, GRSRT are skipped: groestlcoin_hash is not installed (their Base58 checksum cannot be computed); they do "
+    "take part in the reuse histories, where the oracle is pycoin's own answer for the same characters as a fresh plain str",
+    "reuse: a parser's answer for a text object that other entry points / networks have already looked at equals its answer "
+    "for the same characters given as a plain str (same exception class, or equal object as defined above)",
+    "a Base58 text spelled with hex digits only is also a numeral and a bare hex script literal: entry points with the "
+    "free-form number / script parser behind them (secret_exponent, private_key, secret, script, payable, parse()) may return "
+    "that reading; the statement gives no precedence between a checksummed and a free-form kind (pycoin's parse() returns "
+    "the data-push script for a hex-only WIF)",
 ]
 EXPLANATION = ("total: any exception is a violation; refusal/kind separation: a checksummed-kind parser must return None unless "
                "the independent model decodes the text as that kind, and then the object must carry the model's fields; "
@@ -57,6 +73,8 @@ MIXED = {"payable": ADDR_KINDS, "private_key": ("wif",), "hierarchical_key": KT.
          "electrum_prv": (), "electrum_pub": (), "as_number": (), "script": ()}
 FREEFORM_EPS = frozenset(k for k, v in MIXED.items() if v == () )
 ELECTRUM_CHAIN = ("electrum_prv", "electrum_pub", "hierarchical_key", "secret", "__call__")
+NUMBER_EPS = ("secret_exponent", "private_key", "secret", "__call__")
+SCRIPT_EPS = ("script", "payable", "__call__")
 
 
 def exhaustive(tier):
@@ -70,7 +88,7 @@ def plan(tier, seed):
 
 def selftest(rec):
     return {"b58_vectors": RB.selftest(), "bech32_vectors": R32.selftest(), "keytext_vectors": KT.selftest(),
-            "ec": REC.selftest()}
+            "ec": REC.selftest(), "b58shape": SH.selftest()}
 
 
 # ---------------------------------------------------------------------------------------------
@@ -128,6 +146,8 @@ def make_ctx(sym, net):
     c.fn = {ep: getattr(net.parse, ep) for ep in c.eps}
     c.deep_counter = 0
     c.quick = False
+    c.own_hrp_collision = False
+    c.usable_codes = ()
     return c
 
 
@@ -233,6 +253,19 @@ def seed_form(text):
         return True
     if text[:2] == "H:":
         return strict_hex(text[2:]) is not None
+    return False
+
+
+def freeform_reading(ep, text, s, rec):
+    """A Base58 text spelled with hex digits only is also a numeral and, to the script compiler, a bare hex literal (one
+    data push). True when `s` is what such a free-form (not checksummed-kind) reading of `text` denotes and `ep` is an
+    entry point that has that free-form parser behind it."""
+    if ep in NUMBER_EPS and s[0] == "key" and s[1] is not None and s[1] == _py_number(text):
+        rec.ev("freeform.number_reading_of_checksummed_text")
+        return True
+    if ep in SCRIPT_EPS and s[0] == "contract" and strict_hex(text) is not None and s[1] == KT.push(strict_hex(text)):
+        rec.ev("freeform.hex_push_reading_of_checksummed_text")
+        return True
     return False
 
 
@@ -363,7 +396,10 @@ def judge(ctx, ep, text, A, rec, must=None, expect=None, deep=False):
         return
     rec.ev("returned." + ep)
     s = sig(v)
-    if expect is not None and must and tuple(expect) != s:
+    # a checksummed text that also has a free-form reading (hex-only Base58): an entry point with the free-form parser
+    # behind it may return that reading - the statement gives no precedence between a checksummed and a free-form kind
+    ambiguous = A.checksummed and ep not in PURE and freeform_reading(ep, text, s, rec)
+    if expect is not None and must and tuple(expect) != s and not ambiguous:
         mech = diagnose(ep, A, text, v) or "valid.%s_parsed_to_other_object.%s" % (must, ep)
         rec.violation(mech, case_of(ctx, ep, text, must, expect), s, expect)
         return
@@ -381,7 +417,7 @@ def judge(ctx, ep, text, A, rec, must=None, expect=None, deep=False):
         return
     kinds = ep_kinds(ep)
     free = kinds is not None and any(r == "free" for r in A.bad(kinds).values())
-    if kinds is not None and not free:
+    if kinds is not None and not free and not ambiguous:
         oks = A.ok(kinds)
         bad_here = A.bad(kinds)
         verdict = None
@@ -466,7 +502,7 @@ def run_text(ctx, cls, text, rec, must_eps=None, must=None, expect=None):
         # every entry point still sees every garbage class
         k = ctx.deep_counter % 3
         eps = [e for j, e in enumerate(ctx.eps) if j % 3 == k or e == "__call__"]
-    elif ctx.quick and must_eps is None and cls.startswith(("b58.", "bech32.", "mutation.", "confusable.")):
+    elif ctx.quick and must_eps is None and cls.startswith(("b58.", "bech32.", "mutation.", "confusable.", "crossnet.")):
         # quick tier: checksummed-looking text always meets every checksummed-kind parser and every catch-all; the
         # free-form parsers (numbers, scripts, pairs, seeds ...), for which it is just garbage, take turns
         k = ctx.deep_counter % 3
@@ -730,6 +766,13 @@ def valid_workload(ctx, rng, scale):
                 out.append(("valid.key_address", a, ("p2pkh", "address", "payable", "__call__"), "p2pkh_address", exp))
     hashes20 = [bytes(20), b"\xff" * 20] + [rbytes(rng, 20) for _ in range(2 * scale)]
     hashes32 = [bytes(32), b"\xff" * 32] + [rbytes(rng, 32) for _ in range(2 * scale)]
+    # payloads over a restricted alphabet: hex spelling in decimal digits only (a script compiler can take that for a
+    # number), with and without a leading zero, and in letters only
+    for hs, n in ((hashes20, 20), (hashes32, 32)):
+        for _ in range(1 if scale == 1 else 6):
+            d = "".join(rng.choice("0123456789") for _ in range(2 * n - 1))
+            hs += [bytes.fromhex(rng.choice("123456789") + d), bytes.fromhex("0" + d)]
+        hs.append(bytes.fromhex("".join(rng.choice("abcdef") for _ in range(2 * n))))
     addr = net.address
     for h in hashes20:
         for kind, f, eps in (("p2pkh", addr.for_p2pkh, ("p2pkh",)), ("p2sh", addr.for_p2sh, ("p2sh",)), ("p2pkh_segwit", addr.for_p2pkh_wit, ("p2pkh_segwit",))):
@@ -757,6 +800,288 @@ def valid_workload(ctx, rng, scale):
             pubn = nd.public_copy()
             out.append(("valid.%s_pub" % fam, nd.hwif(as_private=False), (fam + "_pub", fam, "hierarchical_key", "__call__"), fam + "_pub_text", sig(pubn)))
     return out
+
+
+# ---------------------------------------------------------------------------------------------
+# every registered network (also the ones whose own Base58 checksum cannot be computed here)
+
+_ALL = None
+
+
+def all_contexts():
+    """{registry code: Ctx} for every registered network. Networks outside usable_networks() (GRS family without its hash
+    module) have no text model here; they only take part in the reuse histories, whose oracle is pycoin's own answer
+    to the same text given as a fresh plain str."""
+    global _ALL
+    if _ALL is None:
+        from pycoin.networks.registry import network_codes, network_for_netcode
+        _ALL = {}
+        for code in sorted(set(network_codes())):
+            st, net = observe(network_for_netcode, code)
+            if st == "ok" and net is not None and getattr(net, "parse", None) is not None:
+                _ALL[code] = make_ctx(code, net)
+    return _ALL
+
+
+def checksum_family(ctx):
+    """identity of the Base58 checksum hook of the network's parse API (found by introspection)."""
+    return getattr(type(ctx.parse), "parse_b58_hashed", None)
+
+
+def shares_text_space(P, Q):
+    """two networks declare a common Base58 prefix or HRP: a text of one is (part of) a text of the other."""
+    mine = {p for _, p in P.b58_prefixes()}
+    return bool(mine & {p for _, p in Q.b58_prefixes()}) or (P.hrp is not None and P.hrp == Q.hrp)
+
+
+# ---------------------------------------------------------------------------------------------
+# constructed texts: valid Base58 texts that look like another format to a parser dispatching on the shape of the text
+
+CONSTRUCTED_QUOTA = {"own_hrp": 6, "key_lead": 2, "symbol": 2, "alphabet": 4}
+
+
+def shape_words(ctx, allp):
+    """-> {class: [word]}: what other text formats of this network and of its siblings begin with."""
+    P = ctx.params
+    words = {"own_hrp": [], "other_hrp": [], "key_lead": [], "symbol": []}
+    if P.hrp:
+        words["own_hrp"] = SH.case_variants(P.hrp + "1", 64)
+    for hrp in sorted({q.hrp for q in allp if q.hrp} - {P.hrp}):
+        words["other_hrp"] += SH.case_variants(hrp + "1", 6)
+    leads = set()
+    for q in allp:
+        for kind, prefix in q.b58_prefixes():
+            for blen in ((74,) if kind in KT.BIP_KINDS else (32, 33) if kind == "wif" else (20,)):
+                w = SH.common_lead(prefix, blen)
+                if len(w) >= 2:
+                    leads.add(w)
+    for w in sorted(leads):
+        words["key_lead"] += SH.case_variants(w, 3)
+    for w in (P.symbol or "", (P.sec_prefix or "").rstrip(":") if isinstance(P.sec_prefix, str) else ""):
+        if len(w) >= 2:
+            words["symbol"] += SH.case_variants(w, 4)
+    return words
+
+
+def constructed_workload(ctx, rng, scale, rec, allp):
+    """-> tuples like valid_workload's. The payload is constructed from the reference codec so that the text has the wanted
+    shape; the text itself is then produced by pycoin's serialiser (and dropped when it is not the reference's text:
+    that is C08 / C10 matter), so each specific parser and each dispatching entry point has to accept it."""
+    net, P = ctx.net, ctx.params
+    forms = []          # (kind, prefix, body length, fixed tail)
+    for kind in KT.B58_ADDR_KINDS:
+        if P.prefix(kind) is not None and not (kind == "p2sh" and P.p2sh == P.p2pkh):
+            forms.append((kind, P.prefix(kind), 20, b""))
+    if P.wif is not None:
+        forms += [("wif", P.wif, 33, b"\x01"), ("wif", P.wif, 32, b"")]
+    out = []
+
+    def emit(cls, form, body):
+        kind, prefix = form[0], form[1]
+        ref = RB.encode_check(prefix + body)
+        if kind == "wif":
+            se = int.from_bytes(body[:32], "big")
+            if not 1 <= se < N:
+                return False
+            st, k = observe(net.keys.private, se, is_compressed=len(body) == 33)
+            st, t = observe(k.wif) if st == "ok" else (st, None)
+            row = (cls, ref, ("wif", "private_key", "secret", "__call__"), "wif_text", sig(k) if st == "ok" else None)
+        else:
+            st, t = observe(net.address.for_p2pkh if kind == "p2pkh" else net.address.for_p2sh, body)
+            row = (cls, ref, (kind, "address", "payable", "__call__"), kind + "_address", ("contract", KT.script_for(kind, body)))
+        if st != "ok" or t != ref:
+            rec.ev("constructed.serialiser_differs_from_reference")
+            return False
+        out.append(row)
+        return True
+
+    words = shape_words(ctx, allp)
+    mult = 1 if scale == 1 else 8
+    for cls in ("own_hrp", "other_hrp", "key_lead", "symbol"):
+        cands = [(w, f) for w in words[cls] for f in forms] * mult
+        rng.shuffle(cands)
+        made, per_word = 0, {}
+        for w, form in cands:
+            # other HRPs: one text per HRP (any spelling), so that every sibling format that can be imitated is; the rest
+            # is bounded by a quota per class
+            group = w.lower() if cls == "other_hrp" else w
+            if (cls != "other_hrp" and made >= CONSTRUCTED_QUOTA[cls] * mult) or per_word.get(group, 0) >= mult:
+                continue
+            body = SH.body_with_lead(form[1], form[2], w, rng, tail=form[3])
+            if body is None:
+                continue
+            if cls == "own_hrp":
+                ctx.own_hrp_collision = True
+            if emit("constructed.%s.%s" % (cls, form[0]), form, body):
+                per_word[group] = per_word.get(group, 0) + 1
+                made += 1
+    # restricted alphabets: every alphabet once (the first form it is possible for), then up to the quota
+    cands = [(a, f) for a in SH.ALPHABETS for f in forms if not f[3]] * mult
+    rng.shuffle(cands)
+    made, per_name = 0, {}
+    for rnd in (0, 1):
+        for (name, chars), form in cands:
+            if made >= CONSTRUCTED_QUOTA["alphabet"] * mult or per_name.get(name, 0) > (rnd and mult * 2):
+                continue
+            body = SH.body_over_alphabet(form[1], form[2], chars, rng, tries=1200 if name == "hex" else 300)
+            if body is not None and emit("constructed.alphabet_%s.%s" % (name, form[0]), form, body):
+                per_name[name] = per_name.get(name, 0) + 1
+                made += 1
+    return out
+
+
+# ---------------------------------------------------------------------------------------------
+# reuse histories: ONE text object (network.parseable_str_type, the str subclass the command line tools hand from network
+# to network) given to many entry points, of one network and of several. What a parser returns for it must be what it
+# returns for the same characters as a fresh plain str.
+
+def outcome(fn, arg):
+    st, v = observe(fn, arg)
+    if st == "exc":
+        return ("exc", type(v).__name__)
+    st, s = observe(sig, v)
+    if st == "exc":
+        return ("ok", ("unreadable", type(v).__name__))
+    if s is not None and s[0] == "other":
+        s = s[:2]
+    return ("ok", s)
+
+
+def reuse_relation(fresh, got):
+    if got[0] == "exc":
+        return "raises"
+    if fresh[0] == "exc":
+        return "hides_exception"
+    if fresh[1] is None:
+        return "accepts_text_refused_as_plain_str"
+    if got[1] is None:
+        return "refuses_text_accepted_as_plain_str"
+    return "returns_other_object"
+
+
+def play_history(scope, maker, text, steps, rec, contexts=None):
+    """maker: code of the network whose parseable_str_type wraps the text; steps: [(network code, entry point)].
+    -> True when every step answered as for the plain str."""
+    contexts = contexts or all_contexts()
+    text = str(text)
+    mk = getattr(contexts[maker].net, "parseable_str_type", None)
+    if mk is None or type(text) is not str:
+        rec.ev("reuse.no_text_object_type")
+        return True
+    shared = mk(text)
+    fresh = {}
+    for i, (code, ep) in enumerate(steps):
+        fn = contexts[code].fn.get(ep)
+        if fn is None:
+            continue
+        if (code, ep) not in fresh:
+            fresh[(code, ep)] = outcome(fn, text)
+        got = outcome(fn, shared)
+        rec.ev("reuse.%s.step" % scope)
+        if got != fresh[(code, ep)]:
+            mech = "reuse.%s.%s.%s" % (scope, ep, reuse_relation(fresh[(code, ep)], got))
+            rec.violation(mech, {"reuse": scope, "maker": maker, "net": code, "ep": ep, "text": "t:" + text,
+                                 "steps": [list(x) for x in steps[:i + 1]]}, got, fresh[(code, ep)])
+            return False
+    return True
+
+
+def text_family(label):
+    """the decoding path a valid text takes: Base58 address / WIF / private node / public node / segwit / SEC."""
+    if label.endswith("_segwit_address") or label == "p2tr_address":
+        return "segwit"
+    if label.endswith("_address"):
+        return "b58_address"
+    if label.endswith("_prv_text") or label.endswith("_pub_text"):
+        return "node_" + label[-8:-5]
+    return label
+
+
+def stratified(rows, cap, rng):
+    """at most `cap` of rows = [(text, eps, family)], one of every family first (so that every decoding path is always
+    in), the rest at random."""
+    rows = list(rows)
+    rng.shuffle(rows)
+    first, rest, seen = [], [], set()
+    for r in rows:
+        (rest if r[2] in seen else first).append(r)
+        seen.add(r[2])
+    return (first + rest)[:max(cap, len(first))]
+
+
+def reuse_texts(ctx, rng, valid, constructed, scale):
+    """-> (checksummed [(text, must_eps, family)], free-form [(text, (), family)]) picked one per class of valid text."""
+    by_cls = {}
+    for cls, text, eps, label, expect in list(valid) + list(constructed):
+        if eps:
+            shaped = cls.startswith("constructed.")
+            by_cls.setdefault(cls.rsplit(".", 1)[0] if shaped else cls, []).append((text, tuple(eps), "shaped" if shaped else text_family(label)))
+    checks = [x for _, v in sorted(by_cls.items()) for x in rng.sample(v, min(len(v), 1 if scale == 1 else 3))]
+    P = ctx.params
+    pfx = P.p2pkh if P.p2pkh is not None else P.wif
+    if pfx is not None:
+        good = pfx + rbytes(rng, 20)
+        checks.append((RB.encode(good + b"\0\0\0\0"), (), "bad_checksum"))           # not a valid checksum of any family
+        checks.append((RB.encode_check(pfx + rbytes(rng, 21)), (), "bad_payload"))       # valid checksum, refused payload
+    se = rng.randrange(1, N)
+    free = [("H:" + rbytes(rng, 16).hex(), (), "seed_hex"), ("P:" + "".join(rng.choice("abc xyz:") for _ in range(9)), (), "seed_text"),
+            ("E:%064x" % se, (), "electrum"), ("E:%064x%064x" % KT.pubpoint(se), (), "electrum"), (str(se), (), "number"), ("%x" % se, (), "number"),
+            ("%d/even" % X_POINT, (), "pair"), ("H:zz", (), "seed_hex"), ("", (), "blank")]
+    return checks, free
+
+
+def run_reuse(ctx, spec, rec, rng, valid, constructed):
+    contexts = all_contexts()
+    scale = spec.get("scale", 1)
+    quick = scale == 1
+    A = ctx.sym
+    checks, free = reuse_texts(ctx, rng, valid, constructed, scale)
+    # ---- one network: every entry point on one text object, in a random order, then (cache warm) backwards
+    same = stratified(checks, 9, rng) if quick else list(checks)
+    same += free if not quick else stratified(free, 4, rng)
+    for text, eps, _ in same:
+        order = list(ctx.eps)
+        rng.shuffle(order)
+        back = order[::-1] if not quick else order[::-1][:len(order) // 2]
+        rec.case(("reuse", A, text), nontrivial=len(text) > 0)
+        play_history("samenet", A, text, [(A, ep) for ep in order + back], rec, contexts)
+    # ---- several networks: the same object travels between networks, in both directions
+    others = [c for c in sorted(contexts) if c != A]
+    fam = checksum_family(ctx)
+    foreign_family = [c for c in others if checksum_family(contexts[c]) is not fam]
+    sharing = [c for c in others if shares_text_space(ctx.params, contexts[c].params)]
+    rng.shuffle(foreign_family)
+    foreign_family.sort(key=lambda c: c not in sharing)          # those that share prefixes first
+    partners = foreign_family[:2 if quick else 4]
+    pool = [c for c in sharing if c not in partners]
+    partners += rng.sample(pool, min(len(pool), 1 if quick else 4))
+    pool = [c for c in others if c not in partners]
+    partners += rng.sample(pool, min(len(pool), 1 if quick else 3))
+    cross = stratified(checks, 8, rng) if quick else list(checks)
+    cross += rng.sample(free, 1 if quick else 4)
+    good_codes = set(ctx.usable_codes)
+    for B in partners:
+        if checksum_family(contexts[B]) is not fam:
+            rec.ev("reuse.crossnet.other_checksum_family")
+        for text, eps, _ in cross:
+            rest = [e for e in ctx.eps if e not in eps and e not in ("__call__", "parse_b58_hashed")]
+            chosen = list(eps) + [e for e in ("__call__", "parse_b58_hashed") if e not in eps] + rng.sample(rest, 2)
+            chosen = [e for e in chosen if e in contexts[B].fn]
+            rng.shuffle(chosen)
+            legs = [[(A, e) for e in chosen] + [(B, e) for e in chosen], [(B, e) for e in chosen] + [(A, e) for e in chosen]]
+            if not quick:
+                legs.append([(n, e) for e in chosen for n in (A, B)])
+                legs.append([(n, e) for e in chosen for n in (B, A)])
+            rec.case(("reuse", A, B, text), nontrivial=len(text) > 0)
+            for steps in legs:
+                for maker in ((steps[0][0],) if quick else (A, B)):
+                    play_history("crossnet", maker, text, steps, rec, contexts)
+        # the same texts as plain str on the partner, judged by the text model of the partner (a text of this network
+        # is foreign, or - shared prefix - an equally valid text there)
+        if B in good_codes:
+            for text, eps, _ in cross[:4 if quick else len(cross)]:
+                run_text(contexts[B], "crossnet.text_of_other_network", text, rec)
+    rec.ev("reuse.histories")
 
 
 def _confusables():
@@ -798,6 +1123,15 @@ def run_network(ctx, spec, rec):
         run_text(ctx, cls, text, rec, must_eps=eps, must=label, expect=expect)
     if valid:
         rec.sample({"net": ctx.sym, "class": valid[0][0], "text": valid[0][1], "entry_points": len(ctx.eps)}, limit=2)
+    # valid Base58 texts shaped like another format (begin with '<hrp>1', a key-text lead, the symbol; hex-only, one-case)
+    constructed = constructed_workload(ctx, rng, scale, rec, [c.params for c in all_contexts().values()])
+    for cls, text, eps, label, expect in constructed:
+        rec.ev("constructed." + cls.split(".")[1])
+        run_text(ctx, cls, text, rec, must_eps=eps, must=label, expect=expect)
+    if constructed:
+        rec.sample({"net": ctx.sym, "class": constructed[0][0], "text": constructed[0][1]}, limit=4)
+    # one text object reused across entry points and networks
+    run_reuse(ctx, spec, rec, shard_rng(spec["seed"], PROPERTY, spec["tier"], ctx.sym, "reuse"), valid, constructed)
     texts = []
     texts += b58_workload(ctx, rng, scale)
     texts += bech32_workload(ctx, rng, scale)
@@ -842,9 +1176,13 @@ def run_shard(spec, rec):
     good, skipped = usable_networks()
     NETS.require_registry(rec, good, skipped)
     mine = good[spec["slice"]::spec["of"]]
+    for c in all_contexts().values():
+        c.quick = spec.get("tier") == "quick"
+        c.usable_codes = tuple(sym for sym, _ in good)
     for sym, net in mine:
-        ctx = make_ctx(sym, net)
+        ctx = all_contexts().get(sym) or make_ctx(sym, net)
         ctx.quick = spec.get("tier") == "quick"
+        ctx.usable_codes = tuple(s for s, _ in good)
         for ep in ctx.eps:
             rec.require("parse." + ep)
         rec.require("net." + sym)
@@ -855,13 +1193,29 @@ def run_shard(spec, rec):
                     "refusal.judged", "kindsep.other_kind_judged")
         if any(sym in ("POLIS", "CHC") for sym, _ in mine):
             rec.require("kindsep.shared_prefix_judged")
+        rec.require("reuse.samenet.step", "reuse.crossnet.step")
+        if len({checksum_family(c) for c in all_contexts().values()}) > 1:
+            rec.require("reuse.crossnet.other_checksum_family")
+        if any(all_contexts()[sym].own_hrp_collision for sym, _ in mine if sym in all_contexts()):
+            # a Base58 text of the network can begin like its own segwit addresses: such texts must have been judged
+            rec.require("constructed.own_hrp")
 
 
 def replay_case(case, rec):
     from pycoin.networks.registry import network_for_netcode
+    text = case["text"]
+    if case.get("reuse"):
+        if isinstance(text, bytes):
+            text = "x:" + text.hex()
+        text = str(text)
+        text = text[2:] if text.startswith("t:") else text
+        import contextlib
+        import io
+        with contextlib.redirect_stdout(io.StringIO()):
+            play_history(case["reuse"], case["maker"], text, [tuple(x) for x in case["steps"]], rec)
+        return
     net = network_for_netcode(case["net"])
     ctx = make_ctx(case["net"], net)
-    text = case["text"]
     if isinstance(text, bytes):         # a text that itself looked like "x:<hex>" to the json restorer
         text = "x:" + text.hex()
     if isinstance(text, int):
